@@ -45,3 +45,86 @@ Proof.
         cbn [rev]. rewrite <- app_assoc. reflexivity. }
   apply (G ws [] 45 H).
 Qed.
+
+(* ------------------------------------------------------------------ *)
+(** * Every way of quoting *)
+
+(** [quoted w s] : the source text [s] is a quoted rendering of the word [w]:
+    plain characters, backslash + any character, and segments between single
+    or double quotes inside which a backslash still escapes the next character
+    and everything except the closing quote stands for itself. *)
+Inductive quoted : list N -> list N -> Prop :=
+| q_nil : quoted [] []
+| q_plain : forall c w s, special c = false -> quoted w s -> quoted (c :: w) (c :: s)
+| q_esc : forall c w s, quoted w s -> quoted (c :: w) (BS :: c :: s)
+| q_open : forall q w s, q = SQ \/ q = DQ -> inquote q w s -> quoted w (q :: s)
+with inquote : N -> list N -> list N -> Prop :=
+| iq_close : forall q w s, q = SQ \/ q = DQ -> quoted w s -> inquote q w (q :: s)
+| iq_char : forall q c w s, c <> q -> c <> BS -> inquote q w s -> inquote q (c :: w) (c :: s)
+| iq_esc : forall q c w s, inquote q w s -> inquote q (c :: w) (BS :: c :: s).
+
+Scheme quoted_mut := Induction for quoted Sort Prop
+  with inquote_mut := Induction for inquote Sort Prop.
+Combined Scheme quoted_inquote_ind from quoted_mut, inquote_mut.
+
+Definition inq_state cu q o := {| cur := cu; inq := true; qc := q; bsl := false; out := o |}.
+
+Lemma step_open cu q0 o q : q = SQ \/ q = DQ -> step (plain cu q0 o) q = inq_state cu q o.
+Proof. intros [-> | ->]; reflexivity. Qed.
+
+Lemma step_close cu q o : q = SQ \/ q = DQ -> step (inq_state cu q o) q = plain cu 45 o.
+Proof. intros [-> | ->]; reflexivity. Qed.
+
+Lemma step_inq_char cu q o c : c <> q -> c <> BS -> step (inq_state cu q o) c = inq_state (c :: cu) q o.
+Proof.
+  intros H1 H2. unfold step, inq_state. cbn [bsl inq qc cur out].
+  destruct (N.eqb_spec c BS); [contradiction|]. destruct (N.eqb_spec c q); [contradiction|]. reflexivity.
+Qed.
+
+Lemma step_inq_bs cu q o : step (inq_state cu q o) BS = {| cur := cu; inq := true; qc := q; bsl := true; out := o |}.
+Proof. reflexivity. Qed.
+
+Lemma step_inq_after_bs cu q o c :
+  step {| cur := cu; inq := true; qc := q; bsl := true; out := o |} c = inq_state (c :: cu) q o.
+Proof. reflexivity. Qed.
+
+Lemma feed_quoted :
+  (forall w s, quoted w s -> forall cu q0 o, exists q', fold_left step s (plain cu q0 o) = plain (rev w ++ cu) q' o) /\
+  (forall q w s, inquote q w s -> forall cu o, exists q', fold_left step s (inq_state cu q o) = plain (rev w ++ cu) q' o).
+Proof.
+  apply quoted_inquote_ind.
+  - intros cu q0 o. exists q0. reflexivity.
+  - intros c w s Hc _ IH cu q0 o. cbn [fold_left]. rewrite step_ordinary by exact Hc.
+    destruct (IH (c :: cu) q0 o) as (q' & Hq). exists q'. rewrite Hq. cbn [rev]. rewrite <- app_assoc. reflexivity.
+  - intros c w s _ IH cu q0 o. cbn [fold_left]. rewrite step_bs, step_after_bs.
+    destruct (IH (c :: cu) q0 o) as (q' & Hq). exists q'. rewrite Hq. cbn [rev]. rewrite <- app_assoc. reflexivity.
+  - intros q w s Hq _ IH cu q0 o. cbn [fold_left]. rewrite (step_open cu q0 o q Hq). apply IH.
+  - intros q w s Hq _ IH cu o. cbn [fold_left]. rewrite (step_close cu q o Hq). apply IH.
+  - intros q c w s H1 H2 _ IH cu o. cbn [fold_left]. rewrite (step_inq_char cu q o c H1 H2).
+    destruct (IH (c :: cu) o) as (q' & Hq). exists q'. rewrite Hq. cbn [rev]. rewrite <- app_assoc. reflexivity.
+  - intros q c w s _ IH cu o. cbn [fold_left]. rewrite step_inq_bs, step_inq_after_bs.
+    destruct (IH (c :: cu) o) as (q' & Hq). exists q'. rewrite Hq. cbn [rev]. rewrite <- app_assoc. reflexivity.
+Qed.
+
+(** Splitting inverts every quoting: for any list of non-empty words and any
+    quoted rendering of each, joined by blanks, the words come back. *)
+Theorem split_quoted : forall ws ss,
+  Forall2 quoted ws ss -> Forall (fun w => w <> []) ws -> split (join ss) = ws.
+Proof.
+  intros ws ss H Hne. unfold split.
+  assert (G : forall ws ss, Forall2 quoted ws ss -> Forall (fun w => w <> []) ws ->
+     forall o q, finish (fold_left step (join ss) (plain [] q o)) = rev o ++ ws).
+  { clear. induction 1 as [|w s ws ss Hq Hr IH]; intros Hne o q.
+    - cbn. rewrite app_nil_r. reflexivity.
+    - inversion Hne as [|? ? Hw Ht]; subst. destruct (rev_nonempty w Hw) as (c0 & t0 & Er).
+      destruct (proj1 feed_quoted w s Hq [] q o) as (q' & Hfeed). rewrite app_nil_r in Hfeed.
+      destruct ss as [|s2 ss'].
+      + inversion Hr; subst. cbn [join]. rewrite Hfeed. unfold finish, plain. cbn [cur out]. rewrite Er.
+        rewrite <- Er, rev_involutive. cbn [rev]. reflexivity.
+      + destruct ws as [|w2 ws']; [inversion Hr|]. cbn [join].
+        change (match ss' with [] => s2 | _ :: _ => s2 ++ SP :: join ss' end) with (join (s2 :: ss')).
+        rewrite fold_left_app, Hfeed. cbn [fold_left].
+        rewrite (step_space _ _ _ c0 t0 Er). rewrite rev_involutive. rewrite IH by assumption.
+        cbn [rev]. rewrite <- app_assoc. reflexivity. }
+  apply (G ws ss H Hne [] 45).
+Qed.
